@@ -99,9 +99,14 @@ impl Shape {
         let root = if p.setnext && r.chance(1, 4) { 0b11 & ((1 << p.b) - 1) } else { 1 };
         let mut order: Vec<usize> = (0..p.n).collect();
         if p.perm {
+            // own stream: the rest of the structure must not depend on `perm`
+            let mut r2 = Rng(p.seed ^ 0x5eed_0bad);
             for i in (1..p.n).rev() {
-                let j = r.below(i as u64 + 1) as usize;
+                let j = r2.below(i as u64 + 1) as usize;
                 order.swap(i, j);
+            }
+            if order.iter().enumerate().all(|(i, v)| i == *v) && p.n >= 2 {
+                order.swap(0, p.n - 1);
             }
         }
         let impacted = if p.long_arcs {
@@ -313,6 +318,8 @@ pub struct Monitor {
     pub root_depth: usize,
     pub check_protocol: bool,
     pub polls: u64,
+    /// Pooled semantics: only states impacted by the layer's variable are expanded
+    pub expect_impacted: bool,
 }
 
 pub struct Table {
@@ -346,7 +353,7 @@ impl Table {
             }
         }
         let init = if sym_init { Cost::input("init", -COST_RANGE, COST_RANGE) } else { Cost::lit(0) };
-        Table { sh: sh.clone(), cost, bonus, init, rub, mon: Mutex::new(Monitor { budget: 200_000, check_protocol: true, ..Default::default() }), hmemo: Mutex::new(HashMap::new()) }
+        Table { sh: sh.clone(), cost, bonus, init, rub, mon: Mutex::new(Monitor { budget: 20_000, check_protocol: true, ..Default::default() }), hmemo: Mutex::new(HashMap::new()) }
     }
     pub fn st(&self, l: usize, m: u32) -> St {
         St { d: if self.sh.depth_free { 0 } else { l as u8 }, m }
@@ -464,8 +471,8 @@ impl Table {
     }
     pub fn reset_monitor(&self) {
         let mut m = self.mon.lock().unwrap();
-        let (b, c) = (m.budget, m.check_protocol);
-        *m = Monitor { budget: b, check_protocol: c, ..Default::default() };
+        let (b, c, e) = (m.budget, m.check_protocol, m.expect_impacted);
+        *m = Monitor { budget: b, check_protocol: c, expect_impacted: e, ..Default::default() };
     }
 }
 
@@ -653,6 +660,9 @@ impl Problem for Table {
                 if !self.sh.depth_free && s.d as usize != l {
                     panic!("SYMX-LABEL[C12:domain-layer] for_each_in_domain on a state of another layer");
                 }
+                if self.mon.lock().unwrap().expect_impacted && !self.impacted_mask(l, s.m) {
+                    panic!("SYMX-LABEL[C12:domain-not-impacted] pooled diagram enumerates the domain of a variable for a state that is not impacted by it (not in that layer)");
+                }
             }
         }
         for d in self.domain(l, s.m) {
@@ -753,20 +763,25 @@ impl StateRanking for ByMask {
     }
 }
 
-/// cutoff that starts answering "stop" at poll number K (1-based); K symbolic
+/// cutoff that starts answering "stop" at poll number K (1-based); K symbolic.
+/// Once it has fired it keeps answering "stop" (like a time budget).
 pub struct PollCutoff {
     pub k: Option<Cost>,
     pub polls: Mutex<u64>,
+    pub fired: Mutex<bool>,
 }
 impl PollCutoff {
     pub fn never() -> Self {
-        PollCutoff { k: None, polls: Mutex::new(0) }
+        PollCutoff { k: None, polls: Mutex::new(0), fired: Mutex::new(false) }
     }
     pub fn at(k: Cost) -> Self {
-        PollCutoff { k: Some(k), polls: Mutex::new(0) }
+        PollCutoff { k: Some(k), polls: Mutex::new(0), fired: Mutex::new(false) }
     }
     pub fn count(&self) -> u64 {
         *self.polls.lock().unwrap()
+    }
+    pub fn has_fired(&self) -> bool {
+        *self.fired.lock().unwrap()
     }
 }
 impl Cutoff for PollCutoff {
@@ -775,9 +790,18 @@ impl Cutoff for PollCutoff {
         *p += 1;
         let n = *p;
         drop(p);
+        if *self.fired.lock().unwrap() {
+            return true;
+        }
         match self.k {
             None => false,
-            Some(k) => Cost::lit(n as i64) >= k,
+            Some(k) => {
+                let f = Cost::lit(n as i64) >= k;
+                if f {
+                    *self.fired.lock().unwrap() = true;
+                }
+                f
+            }
         }
     }
 }
